@@ -62,6 +62,8 @@ struct Recorder {
 }
 
 static REC: std::sync::OnceLock<Arc<Recorder>> = std::sync::OnceLock::new();
+/// messages of the panics of the current scenario (all threads, the store's worker threads included)
+static PANICS: Mutex<Vec<String>> = Mutex::new(vec![]);
 
 thread_local! {
     static PAUSE_RNG: std::cell::RefCell<Option<(u64, Rng)>> = std::cell::RefCell::new(None);
@@ -341,8 +343,29 @@ fn run_task(sh: &Shared, task: &Task, rng: &mut Rng) {
         }
         Task::OverlayChain { len, blocking, child_first } => {
             let mut chain: Vec<Overlay> = vec![];
+            let mut base: Option<[u8; 32]> = None;
             for _ in 0..*len {
                 let Some(s) = begin(sh, &chain) else { return };
+                match base {
+                    None => base = Some(s.prev_root().into_inner()),
+                    Some(b) => {
+                        // A session on a chain of overlays is only meaningful while the chain's base is the committed state. The
+                        // session holds the read guard, so the answer of `Nomt::root` cannot change until it ends.  (A session on a
+                        // chain whose base was superseded is NOT refused by the store; after a rollback to the old base the whole
+                        // chain is accepted and publishes a root that is not the root of the stored content: `vharness lockrec-aba`,
+                        // notes/Q22.md.  The recorded schedules stay clear of it.)
+                        hev("h.call.root", String::new());
+                        let cur = caught(sh, "Nomt::root", || sh.db.root());
+                        if let Some(r) = &cur {
+                            hev("h.ret", format!("done root={}", short(&r.into_inner())));
+                        }
+                        if cur.map(|r| r.into_inner()) != Some(b) {
+                            sh.observations.lock().unwrap().push("overlay_chain_base_superseded_session_abandoned".into());
+                            drop_session(sh, s);
+                            break;
+                        }
+                    }
+                }
                 let Some(f) = finish(sh, s, rng, !chain.is_empty()) else { return };
                 let ov = f.into_overlay();
                 register_overlay(sh, &ov);
@@ -966,6 +989,16 @@ pub fn run(seed: u64, cases: usize, out: &mut Sink, args: &[String]) {
     let outdir = args.iter().position(|a| a == "--out").and_then(|i| args.get(i + 1).cloned()).unwrap_or_else(|| "work/out".into());
     let pid = std::process::id();
     let r = rec().clone();
+    let forced_focus: Option<usize> = args.iter().position(|a| a == "--focus").and_then(|i| args.get(i + 1)).and_then(|s| s.parse().ok());
+    let forced_workers: Option<usize> = args.iter().position(|a| a == "--workers").and_then(|i| args.get(i + 1)).and_then(|s| s.parse().ok());
+    std::panic::set_hook(Box::new(|info| {
+        let msg = info.payload().downcast_ref::<&str>().map(|s| s.to_string()).or_else(|| info.payload().downcast_ref::<String>().cloned()).unwrap_or_default();
+        let loc = info.location().map(|l| format!("{}:{}", l.file().rsplit('/').next().unwrap_or(""), l.line())).unwrap_or_default();
+        let th = std::thread::current().name().unwrap_or("?").to_string();
+        if let Ok(mut p) = PANICS.lock() {
+            p.push(format!("[{th} @ {loc}: {}]", msg.chars().take(160).collect::<String>()));
+        }
+    }));
     let mut rng = Rng::new(seed);
     // watchdog: a scenario that does not end is a deadlock of the real store
     let progress = Arc::new(AtomicU64::new(0));
@@ -997,7 +1030,7 @@ pub fn run(seed: u64, cases: usize, out: &mut Sink, args: &[String]) {
         progress.store(case as u64 + 1, Ordering::SeqCst);
         let mut crng = rng.fork();
         let nthreads = fixed_threads.unwrap_or_else(|| crng.range(2, 6));
-        let focus = crng.below(4);
+        let focus = forced_focus.unwrap_or_else(|| crng.below(4));
         let dir = format!("/dev/shm/nomt-verif-db-{pid}-lockrec-{seed}-{case}");
         let _ = std::fs::remove_dir_all(&dir);
         let mut cfg = DbCfg::gen(&mut crng);
@@ -1006,7 +1039,8 @@ pub fn run(seed: u64, cases: usize, out: &mut Sink, args: &[String]) {
         cfg.maxlog = 100;
         cfg.warm_up = false;
         cfg.prepopulate = false;
-        cfg.workers = *crng.pick(&[1usize, 2, 4]);
+        cfg.workers = forced_workers.unwrap_or_else(|| *crng.pick(&[1usize, 2, 4]));
+        PANICS.lock().unwrap().clear();
         let db: Arc<Db> = match Db::open(cfg.options(&dir)) {
             Ok(d) => Arc::new(d),
             Err(e) => {
@@ -1110,8 +1144,9 @@ pub fn run(seed: u64, cases: usize, out: &mut Sink, args: &[String]) {
         if poisoned {
             problems.push("C15 lockrec: the store is poisoned although no I/O failure was injected".into());
         }
+        let panics = PANICS.lock().unwrap().join(" ");
         for p in problems.iter().take(6) {
-            out.fail(format!("{p} [replay: vharness lockrec --seed {seed} --cases {} (scenario {case})]", case + 1));
+            out.fail(format!("{p} [replay: vharness lockrec --seed {seed} --cases {} (scenario {case})]{}", case + 1, if panics.is_empty() { String::new() } else { format!(" panics of the scenario in order: {panics}") }));
         }
         // evidence
         out.count("schedules");
@@ -1142,4 +1177,153 @@ pub fn run(seed: u64, cases: usize, out: &mut Sink, args: &[String]) {
         let _ = std::fs::remove_dir_all(&dir);
     }
     progress.store(u64::MAX, Ordering::SeqCst);
+}
+
+/// `lockrec-aba --seed S --cases N`: single-threaded search for the pattern seen in recorded schedules — a changeset
+/// (finished session, or a chain of overlays) is prepared on the state with root r; another changeset is committed and
+/// rolled back (root r again); the first changeset is then accepted (its base root is current).  Afterwards the store
+/// is used normally.  Any panic / torn read is reported.
+pub fn aba(seed: u64, cases: usize, out: &mut Sink) {
+    let pid = std::process::id();
+    std::panic::set_hook(Box::new(|info| {
+        let msg = info.payload().downcast_ref::<&str>().map(|s| s.to_string()).or_else(|| info.payload().downcast_ref::<String>().cloned()).unwrap_or_default();
+        let loc = info.location().map(|l| format!("{}:{}", l.file().rsplit('/').next().unwrap_or(""), l.line())).unwrap_or_default();
+        if let Ok(mut p) = PANICS.lock() {
+            p.push(format!("[{loc}: {}]", msg.chars().take(160).collect::<String>()));
+        }
+    }));
+    let mut rng = Rng::new(seed);
+    for case in 0..cases {
+        let mut crng = rng.fork();
+        PANICS.lock().unwrap().clear();
+        let dir = format!("/dev/shm/nomt-verif-db-{pid}-aba-{seed}-{case}");
+        let _ = std::fs::remove_dir_all(&dir);
+        let mut cfg = DbCfg::gen(&mut crng);
+        cfg.buckets = 4096;
+        cfg.rollback = true;
+        cfg.maxlog = 100;
+        cfg.warm_up = false;
+        cfg.prepopulate = false;
+        cfg.workers = 1;
+        let db: Db = match Db::open(cfg.options(&dir)) {
+            Ok(d) => d,
+            Err(_) => continue,
+        };
+        let use_overlay = crng.chance(2, 3);
+        let chain_len = crng.range(1, 3);
+        // the variant seen in the recorded schedules: the LAST overlay of the chain is prepared (by a session on the
+        // earlier ones) while the competing commit X is in place, i.e. on a base that is not current at that moment
+        let stale_mid = use_overlay && crng.chance(1, 2);
+        let mut oracle: BTreeMap<Key, Vec<u8>> = BTreeMap::new();
+        let mut key = |rng: &mut Rng| {
+            let mut k = rng.bytes32();
+            k[0] |= 0x80;
+            k
+        };
+        let mut script = String::new();
+        let res = std::panic::catch_unwind(std::panic::AssertUnwindSafe(|| -> Result<(), String> {
+            let mut stamp = 0u64;
+            let mut mk = |rng: &mut Rng, num: usize, den: usize, keyf: &mut dyn FnMut(&mut Rng) -> Key| -> Vec<(Key, Vec<u8>)> {
+                stamp += 1;
+                let mut w = vec![(STAMP, stamp.to_le_bytes().to_vec())];
+                if rng.chance(num, den) {
+                    w.push((keyf(rng), vec![stamp as u8; 20]));
+                }
+                w.sort();
+                w
+            };
+            let commit_plain = |w: &Vec<(Key, Vec<u8>)>| -> Result<(), String> {
+                let s = db.begin_session(SessionParams::default());
+                let f = s.finish(w.iter().map(|(k, v)| (*k, KeyReadWrite::Write(Some(v.clone())))).collect()).map_err(|e| format!("finish {e:#}"))?;
+                f.commit(&db).map_err(|e| format!("commit {e:#}"))
+            };
+            // A
+            let wa = mk(&mut crng, 1, 2, &mut key);
+            script.push_str(&format!("A={} ", wa.len()));
+            commit_plain(&wa)?;
+            for (k, v) in &wa {
+                oracle.insert(*k, v.clone());
+            }
+            // F prepared on r
+            let mut fin: Option<FinishedSession> = None;
+            let mut chain: Vec<Overlay> = vec![];
+            let mut fw: Vec<Vec<(Key, Vec<u8>)>> = vec![];
+            let mut wx_early: Option<Vec<(Key, Vec<u8>)>> = None;
+            if use_overlay {
+                let n = if stale_mid { chain_len + 1 } else { chain_len };
+                for j in 0..n {
+                    if stale_mid && j + 1 == n {
+                        let wx = mk(&mut crng, 3, 4, &mut key);
+                        commit_plain(&wx)?;
+                        wx_early = Some(wx);
+                    }
+                    let w = mk(&mut crng, 1, 2, &mut key);
+                    let s = db.begin_session(SessionParams::default().overlay(chain.iter().rev()).map_err(|e| format!("{e:?}"))?);
+                    let f = s.finish(w.iter().map(|(k, v)| (*k, KeyReadWrite::Write(Some(v.clone())))).collect()).map_err(|e| format!("finish {e:#}"))?;
+                    chain.push(f.into_overlay());
+                    fw.push(w);
+                }
+            } else {
+                let w = mk(&mut crng, 1, 2, &mut key);
+                let s = db.begin_session(SessionParams::default());
+                fin = Some(s.finish(w.iter().map(|(k, v)| (*k, KeyReadWrite::Write(Some(v.clone())))).collect()).map_err(|e| format!("finish {e:#}"))?);
+                fw.push(w);
+            }
+            script.push_str(&format!("F={}x{:?} ", if use_overlay { "ov" } else { "fin" }, fw.iter().map(|w| w.len()).collect::<Vec<_>>()));
+            // X committed and rolled back
+            let wx = match wx_early {
+                Some(wx) => wx,
+                None => {
+                    let wx = mk(&mut crng, 3, 4, &mut key);
+                    commit_plain(&wx)?;
+                    wx
+                }
+            };
+            script.push_str(&format!("X={} stale_mid={stale_mid} ", wx.len()));
+            db.rollback(1).map_err(|e| format!("rollback {e:#}"))?;
+            // F accepted
+            if let Some(f) = fin {
+                f.commit(&db).map_err(|e| format!("commit F {e:#}"))?;
+            }
+            for ov in chain {
+                ov.commit(&db).map_err(|e| format!("commit F-overlay {e:#}"))?;
+            }
+            for w in &fw {
+                for (k, v) in w {
+                    oracle.insert(*k, v.clone());
+                }
+            }
+            // the store is used normally
+            for (k, v) in &oracle {
+                let got = db.read(*k).map_err(|e| format!("read {e:#}"))?;
+                if got.as_ref() != Some(v) {
+                    return Err(format!("read of {} returns {:?}, expected {}", hex(&k[..4]), got.map(|g| hex(&g[..g.len().min(8)])), hex(&v[..v.len().min(8)])));
+                }
+            }
+            // the root must be the root of the content (reference trie of the harness, independent of the store)
+            let kvs: Vec<(Key, [u8; 32])> = oracle.iter().map(|(k, v)| (*k, crate::db::vhash(v))).collect();
+            let want = ref_root(&kvs);
+            let got = db.root().into_inner();
+            if want != got {
+                return Err(format!("ROOT of the committed state is {} but the content (all keys read back as expected) has root {}: the merkle pages do not describe the stored key-value set", hex(&got[..8]), hex(&want[..8])));
+            }
+            for (k, _) in &wx {
+                if !oracle.contains_key(k) && db.read(*k).map_err(|e| format!("read {e:#}"))?.is_some() {
+                    return Err(format!("rolled-back key {} is still readable", hex(&k[..4])));
+                }
+            }
+            let wg = mk(&mut crng, 1, 1, &mut key);
+            commit_plain(&wg)?;
+            Ok(())
+        }));
+        out.mark_case(format!("aba seed={seed} case={case} {script}"));
+        out.count("aba_cases");
+        match res {
+            Ok(Ok(())) => out.nontrivial(&script),
+            Ok(Err(e)) => out.fail(format!("C12 C01 ABA: changeset prepared on root r, another commit rolled back, changeset accepted: {e} [{script}] [replay: vharness lockrec-aba --seed {seed} --cases {}]", case + 1)),
+            Err(_) => out.fail(format!("C12 C01 ABA: PANIC after a changeset prepared on root r was accepted once a competing commit had been rolled back [{script}] panics: {} [replay: vharness lockrec-aba --seed {seed} --cases {}]", PANICS.lock().unwrap().join(" "), case + 1)),
+        }
+        drop(db);
+        let _ = std::fs::remove_dir_all(&dir);
+    }
 }
